@@ -46,6 +46,9 @@ def classes(g):
            ("share_l", [("other", ("cls", "Self"))], None, [("setf", SELF, "l", F(V("other"), "l"))]),
            ("take_l", [("v", ("list", "int"))], None, [("setf", SELF, "l", V("v"))]),
            ("twin", [], ("cls", "Self"), [("return", ("new", "Self", [("bin", "+", F(SELF, "n"), I(1)), F(SELF, "s")]))]),
+           # one method READS the module variable gk, another one has a PARAMETER called gk
+           ("plus_gk", [], "int", [("return", ("bin", "+", F(SELF, "n"), V("gk")))]),
+           ("times_gk", [("gk", "int")], "int", [("return", ("bin", "*", F(SELF, "n"), V("gk")))]),
            ])
     k1 = ("class", "K1", [("inner", ("cls", "K0")), ("tag", "str")], [("inner", ("cls", "K0")), ("tag", "str")],
           [("setf", SELF, "inner", V("inner")), ("setf", SELF, "tag", V("tag"))],
@@ -62,7 +65,9 @@ def classes(g):
            ])
     helper = ("decl", "mutate", None, ("fn", [("k", ("cls", "K0")), ("d", "int")], "int",
               [("expr", ("mcall", V("k"), "add_n", [V("d")])), ("return", F(V("k"), "n"))]), ())
-    return [k0, k1, k2, helper]
+    # objects are also made inside a function whose parameter is called gk, too
+    build = ("decl", "build0", None, ("fn", [("gk", "int")], ("cls", "K0"), [("return", ("new", "K0", [V("gk"), S("b")]))]), ())
+    return [("decl", "gk", None, I(100), ()), k0, k1, k2, helper, build]
 
 
 @st.composite
@@ -89,7 +94,7 @@ def cases(draw):
     copies = []
     steps = g.int(3, 15)
     for step in range(steps):
-        ops = [(3, "snapshot"), (3, "new0"), (2, "alias"), (4, "method"), (2, "chain"), (3, "fieldw"), (2, "fieldr"), (2, "is"), (2, "fn"),
+        ops = [(3, "snapshot"), (2, "gk"), (3, "new0"), (2, "alias"), (4, "method"), (2, "chain"), (3, "fieldw"), (2, "fieldr"), (2, "is"), (2, "fn"),
                (3, "new1"), (1, "new2"), (1, "list"), (2, "absorb"), (1, "twin"), (1, "opt"), (3, "listfield")]
         if k1s:
             ops += [(3, "k1op")]
@@ -98,7 +103,23 @@ def cases(draw):
         if lists:
             ops += [(2, "listop")]
         op = g.weighted(ops)
-        if op == "snapshot":
+        if op == "gk":
+            g.label("method-reads-module-variable-named-like-a-parameter")
+            k = g.choice(["build", "plus", "times", "assign"])
+            if k == "build" and len(k0s) < 6:
+                name = "b%d" % step
+                stmts.append(("decl", name, None, ("call", V("build0"), [I(g.int(0, 9))]), ()))
+                k0s.append(name)
+                distinct0 += 1
+                stmts.append(("print", ("mcall", V(name), "plus_gk", [])))
+            elif k == "times":
+                stmts.append(("print", ("mcall", V(g.choice(k0s)), "times_gk", [I(g.int(2, 4))])))
+            elif k == "assign":
+                stmts.append(("decl", "gk", None, I(g.int(200, 209)), ()))
+                stmts.append(("print", ("mcall", V(g.choice(k0s)), "plus_gk", [])))
+            else:
+                stmts.append(("print", ("mcall", V(g.choice(k0s)), "plus_gk", [])))
+        elif op == "snapshot":
             o = g.choice(k0s)
             k = g.choice(["fn-field", "fn-element", "fn-object-field", "copy-field", "copy-element"])
             if k == "fn-object-field" and not k1s:
@@ -288,7 +309,7 @@ def cases(draw):
 def check(case):
     stmts = [("print", S("@start"))] + case["stmts"] + [("print", S("@end"))]
     src, _ = ms.program(stmts)
-    hist, _ = ms.program(case["stmts"] if case.get("raw") else case["stmts"][4:])
+    hist, _ = ms.program(case["stmts"] if case.get("raw") else case["stmts"][6:])
     try:
         out, failure = model.Interp().run(stmts)
     except model.OutOfFuel:
